@@ -90,6 +90,22 @@ def run(ctx):
                 if int(row[0]) == 1:
                     row[5] *= 1e-3
             ctx.count("six_node_peak_cases")
+        if ci % 4 == 1:
+            # a core whose first position holds a type WITHOUT pin model and the others a type with one, all at different powers:
+            # the pin rows of the summary tables belong to the assemblies they are labelled with
+            pos = [(1, 1)] + rng.sample([(2, 1), (2, 2), (2, 3), (2, 4), (2, 5), (2, 6)], rng.choice([2, 3]))
+            case = gi.random_case(rng, positions=pos, n_types=2, gap_model=rng.choice(['none', 'flow']),
+                                  length=round(rng.uniform(0.1, 0.2), 3), with_power=False, flow_range=(0.5, 3.0))
+            names_ = list(case['types'])
+            for a_ in case['assignment']:
+                a_['type'] = names_[0] if (a_['ring'], a_['pos']) == (1, 1) else names_[1]
+            case['types'][names_[0]].pop('FuelModel', None)
+            case['types'][names_[0]].pop('PinModel', None)
+            case['types'][names_[1]]['FuelModel'] = dict(FUEL_MODEL)
+            shaped_power(rng, case, shape)
+            for row in case['power']['rows']:
+                row[5] *= 1.0 + 0.15 * int(row[0])
+            ctx.count("mixed_pin_model_cores")
         d = str(ctx.work / ("p%d" % ci))
         if ci % 2 == 1:
             gi.random_setup_options(rng, case)
@@ -192,6 +208,42 @@ def run(ctx):
                                       "%.2f K, but that duct's maximum over the sweep is %.2f K (the table pairs the outlet "
                                       "region's ducts with peak slots counted from the innermost)" % (dnum + 1, i + 1, shown, want),
                                       case=case, asm=i, row=cols)
+            # pin summary tables: one row per assembly WITH pin temperatures, labelled with that assembly's number, showing the
+            # radial profile stored with that assembly's peak
+            for comp, regn in (('clad', 'od'), ('clad', 'mw'), ('clad', 'id'), ('fuel', 'od'), ('fuel', 'cl')):
+                if not any('pin' in a._peak for a in r.assemblies):
+                    break
+                pt = T.PeakPinTempTable(comp, regn)
+                pt.make(r)
+                prow = {}
+                for idx, cols in parse_table_rows(pt.table):
+                    prow.setdefault(idx, cols)
+                ctx.count("pin_tables_checked")
+                for i, a in enumerate(r.assemblies):
+                    has = 'pin' in a._peak
+                    if has != ((i + 1) in prow):
+                        ctx.violation("c15-table-pin-rows", "PEAK %s %s table: assembly %d %s pin temperatures, but the table %s a row "
+                                      "labelled %d" % (comp.upper(), regn.upper(), i + 1, "has" if has else "has no",
+                                                       "lacks" if has else "has", i + 1), case=case, asm=i, table=pt.table[-1500:])
+                        break
+                    if not has:
+                        continue
+                    prof = [float(x) for x in a._peak['pin'][comp + '_' + regn][2]]
+                    cols = prow[i + 1]
+                    # Name, Pin, Height, Power, then the nominal temperatures: coolant, clad OD/MW/ID, fuel OD/CL
+                    shown = []
+                    for c_ in cols[4:4 + len(prof) - 3]:
+                        try:
+                            shown.append(float(c_.strip('|')))
+                        except ValueError:
+                            pass
+                    want = prof[3:3 + len(shown)]
+                    if int(cols[1]) != int(prof[2]) or not shown or max(abs(x - y) for x, y in zip(shown, want)) > 0.051:
+                        ctx.violation("c15-table-pin", "PEAK %s %s table: the row labelled assembly %d shows pin %s with %s, that assembly's "
+                                      "stored peak profile is pin %d with %s" % (comp.upper(), regn.upper(), i + 1, cols[1], shown,
+                                                                                 int(prof[2]), [round(x, 1) for x in want]),
+                                      case=case, asm=i, row=cols)
+                        break
         except SystemExit:
             pass
         if ci < 3:
